@@ -196,6 +196,12 @@ def reject_cases(doc, rnd):
            ("paste_other_case_upper", doc + [macro("@ZCASE", [t1]), paste("@zcase")]),
            ("duplicate_macro", doc + [macro("@dm", [t1]), macro("@dm", [dict(t1, name="@zq2")])]),
            ("paste_without_name", doc + [{"t": "raw", "lines": ["PASTE"], "label": "PASTE"}])]
+    for total in (3, 4, 5):
+        for a in range(total):
+            for b in range(a + 1, total):
+                ms = [macro("@dm" if i in (a, b) else "@zu%d" % i, [dict(t1, name="@zq%d" % i)]) for i in range(total)]
+                res.append(("duplicate_macro_%d_of_%d_%d" % (total, a, b), doc + ms))
+                res.append(("duplicate_macro_%d_of_%d_%d_pasted" % (total, a, b), [paste("@dm")] + doc + ms))
     for n in (1, 2, 3, 4):
         ms = [macro("@c%d" % i, [paste("@c%d" % (i % n + 1))]) for i in range(1, n + 1)]
         res.append(("cycle%d_unused" % n, doc + ms))
